@@ -37,9 +37,26 @@ def build(rnd, tier, flags):
     n = len(flat)
     texts = [gen.stmt_text(st) for st, _ in flat]
     depth = [d for _, d in flat]
-    full = "\n".join(texts) + "\n"
     missing = r.chance(35)
-    case = {"full": full, "std": std, "reader": r.pick(["string", "file"]), "meta": meta, "missing": missing}
+    labels_ = [st.label for st, _ in flat]
+    roles_ = [st.role for st, _ in flat]
+    twin = None
+    if not missing and r.chance(30):
+        # the same include file used twice: one simple statement is written twice in a row, each copy replaced by
+        # an INCLUDE of the same file
+        cand = [i for i, (st, d) in enumerate(flat) if st.kind in ("assign", "continue", "call", "print") and not st.label
+                and st.role == "simple" and d >= 1 and i >= 1]
+        if cand:
+            i = r.pick(cand)
+            for arr in (texts, depth, labels_, roles_):
+                arr.insert(i + 1, arr[i])
+            n += 1
+            twin = i
+    full = "\n".join(texts) + "\n"
+    case = {"full": full, "std": std, "reader": r.pick(["string", "file"]), "meta": meta, "missing": missing,
+            "relative_dirs": r.chance(30)}
+    if twin is not None:
+        meta["same_file_twice"] = True
     if not missing:
         # nested ranges over statement indices [a, b), never starting at 0 and with an unlabelled first statement
         def pick_range(lo, hi):
@@ -47,11 +64,13 @@ def build(rnd, tier, flags):
                 return None
             a = r.n(lo, hi - 1)
             b = r.n(a + 1, hi)
-            while a < b and flat[a][0].label:
+            while a < b and labels_[a]:
                 a += 1
             return (a, b) if a < b else None
         ranges = []
-        r1 = pick_range(1, n)
+        r1 = pick_range(1, n) if twin is None else None
+        if twin is not None:
+            ranges = [(twin, twin + 1), (twin + 1, twin + 2)]
         if r1:
             ranges.append(r1)
             c = r.n(0, 2)
@@ -67,7 +86,7 @@ def build(rnd, tier, flags):
                 r2 = pick_range(r1[1], n)
                 if r2:
                     ranges.append(r2)
-        names = ["inc_a.inc", "part2.f90", "x3.h"]
+        names = ["inc_a.inc", "part2.f90", "x3.h"] if twin is None else ["twice.inc", "twice.inc"]
         files = {}
 
         def render(a, b, level):
@@ -91,7 +110,7 @@ def build(rnd, tier, flags):
         done = set()
         main_lines = render(0, n, 0)
         cross = any(min(depth[a:b]) < depth[a] or depth[b - 1] != depth[a] or
-                    any(flat[i][0].role in ("open", "close", "mid") for i in (a, b - 1)) for a, b in ranges)
+                    any(roles_[i] in ("open", "close", "mid") for i in (a, b - 1)) for a, b in ranges)
         order = [0, 1, 2]
         # shuffle directory order with the generator's randomness
         for i in range(2, 0, -1):
@@ -197,7 +216,20 @@ def evaluate(case):
                 path = os.path.join(wd, "main.f90")
                 with open(path, "w") as fh:
                     fh.write(case["main"])
-            o = guarded_parse(case["main"], std=std, file_path=path, include_dirs=search)
+            if case.get("relative_dirs"):
+                # include directories (and the main file) given relative to the current directory
+                labels.append("relative-include-dirs")
+                cwd = os.getcwd()
+                os.chdir(wd)
+                try:
+                    o = guarded_parse(case["main"], std=std, file_path=("main.f90" if path else None),
+                                      include_dirs=[os.path.relpath(d, wd) for d in search])
+                finally:
+                    os.chdir(cwd)
+            else:
+                o = guarded_parse(case["main"], std=std, file_path=path, include_dirs=search)
+            if meta.get("same_file_twice"):
+                labels.append("same-file-twice")
             if o.kind != "tree":
                 return Result(False, "found:reject:%s%s" % (o.kind, ":nested" if meta.get("nested") else ""), nontrivial, labels,
                               {"error": o.text, "main": case["main"][:1500], "files": case["files"]})
